@@ -72,6 +72,7 @@ var c16Names = []string{
 	"com.example.v1.FooAlias",
 	"com.example.v1.Bar",
 	"io.k8s.api.apps.v1.ConfigMapArgs",
+	"com.example.v1.DeploymentAlias",
 }
 
 // path of the list whose merge key is observed, per kind
@@ -244,8 +245,14 @@ func genSchema16(g *Rng, id int) c16Schema {
 	} else if g.Chance(20) {
 		addPath(bar, g.Bool()) // a path without a definition
 	}
-	if g.Chance(30) {
-		add("io.k8s.api.apps.v1.Deployment", dep, g.Chance(50))
+	if g.Chance(35) {
+		// re-declares the built-in apps/v1 Deployment: under the built-in definition name, or under a name of its own
+		// (then two stored definitions claim the same group/version/kind: the one parsed last must win the index)
+		name := "io.k8s.api.apps.v1.Deployment"
+		if g.Chance(50) {
+			name = "com.example.v1.DeploymentAlias"
+		}
+		add(name, dep, g.Chance(50))
 		if g.Chance(30) {
 			addPath(dep, false)
 		}
@@ -426,7 +433,7 @@ type c16CfgSpec struct {
 	Field string `json:"field"`
 }
 
-var c16CfgKey = map[string]string{"namespace": "namespace", "labels": "commonLabels", "annotations": "commonAnnotations",
+var c16CfgKey = map[string]string{"namespace": "namespace", "labels": "commonLabels", "templatelabels": "templateLabels", "annotations": "commonAnnotations",
 	"prefix": "namePrefix", "suffix": "nameSuffix", "images": "images", "replicas": "replicas"}
 
 func (t *c16Tree) hasCfg(dir string) bool {
@@ -441,7 +448,7 @@ func (t *c16Tree) hasCfg(dir string) bool {
 // cfgYaml renders the `configurations:` file.
 func (t *c16Tree) cfgYaml() string {
 	var b strings.Builder
-	for _, dir := range []string{"namespace", "labels", "annotations", "prefix", "suffix", "images", "replicas"} {
+	for _, dir := range []string{"namespace", "labels", "templatelabels", "annotations", "prefix", "suffix", "images", "replicas"} {
 		first := true
 		for _, c := range t.Cfg {
 			if c.Dir != dir {
@@ -453,7 +460,7 @@ func (t *c16Tree) cfgYaml() string {
 			}
 			fmt.Fprintf(&b, "- path: %s/%s\n  kind: %s\n", c16CfgRoot(c.Kind), c.Field, c.Kind)
 			switch dir {
-			case "namespace", "labels", "annotations", "replicas":
+			case "namespace", "labels", "templatelabels", "annotations", "replicas":
 				b.WriteString("  create: true\n")
 			}
 		}
@@ -574,6 +581,9 @@ func (t *c16Tree) fs(schemas []c16Schema) filesys.FileSystem {
 		}
 		if t.hasCfg("annotations") {
 			k.WriteString("commonAnnotations:\n  va: yv\n")
+		}
+		if t.hasCfg("templatelabels") {
+			k.WriteString("labels:\n- pairs:\n    tl: tv\n  includeTemplates: true\n")
 		}
 		if t.hasCfg("prefix") {
 			k.WriteString("namePrefix: p-\n")
@@ -931,7 +941,13 @@ func c16Expect(seq c16Seq, res c16SeqRes) []string {
 					say(i, "SetSchema-without-reset-changed-a-set-schema", js(prev)+" -> "+js(cur))
 				}
 			case st.Class != ClsOk:
-				// rejected field: nothing to expect here (the model covers what is left behind)
+				// a rejected field (unknown version, version and schema together) may leave the version string behind, but
+				// it must not re-arm initSchema, touch the maps or the custom schema
+				want := prev
+				want.Version = cur.Version
+				if js(cur) != js(want) {
+					say(i, "rejected-SetSchema-changed-more-than-the-version", js(prev)+" -> "+js(cur))
+				}
 			case isDefaultField(op.Ver, op.Schema):
 				if prev.HasCustom {
 					if cur.HasCustom || cur.Version != "" || !dropped(cur) {
@@ -1010,6 +1026,12 @@ func c16Expect(seq c16Seq, res c16SeqRes) []string {
 			}
 		case "build":
 			t := op.Tree
+			if t.Schema < 0 && t.Ver != nil && *t.Ver != "" && *t.Ver != cur.DefaultVersion && !prev.HasCustom {
+				// rejected by SetSchema (unknown version) before anything is built: the parsed schema must survive
+				if prev.SchemaInit && !cur.SchemaInit || mapsOf(cur) != mapsOf(prev) {
+					say(i, "rejected-build-disturbed-the-parsed-schema", js(prev)+" -> "+js(cur))
+				}
+			}
 			if isDefaultField(t.Ver, t.Schema) && (!t.HasBase || isDefaultField(t.BaseVer, t.BaseSchema)) {
 				if cur.HasCustom {
 					say(i, "custom-schema-installed-after-a-default-build", js(prev)+" -> "+js(cur))
